@@ -398,11 +398,15 @@ def text_of(value):
 
 
 def lone_item(value):
-    """ The item of a one-item list, however deep it is nested (as deep as the result of a formula
-    is looked into: a list that contains itself would be unwrapped for ever). """
-    for _ in range(8):
-        if not (isinstance(value, list) and len(value) == 1):
+    """ The item of a one-item list, however deep it is nested (a list that contains itself is
+    left as it is found at the second visit: it would be unwrapped for ever). """
+    visited = None
+    while isinstance(value, (list, tuple)) and len(value) == 1:
+        if visited is None:
+            visited = set()
+        elif id(value) in visited:
             break
+        visited.add(id(value))
         value = value[0]
     return value
 
